@@ -1,17 +1,21 @@
 #!/bin/sh
-# usage: seedtest.sh <seed-dir-name> <property> [tier]   -- apply a seeded change to /repo, run a check, always revert
+# usage: seedtest.sh <seed-dir-name> <property> [tier]
+# Runs one check against a scratch copy of /repo's working tree with the seeded change applied (NMFU_REPO), evidence and
+# replay files redirected to the scratch directory (VERIF_OUT); the scratch copy is always removed.  /repo is not touched,
+# so several seeds can be tried in parallel and committed evidence is never overwritten.
 S=/verif/seeded/$1
 P=$2
 T=${3:-quick}
-cd /repo || exit 2
-git diff --quiet || { echo "repo dirty"; exit 2; }
-git apply "$S/patch.diff" || { echo "patch does not apply"; exit 2; }
+W=$(mktemp -d /tmp/seedwt.XXXXXX)
+trap 'rm -rf "$W"' EXIT
+mkdir -p "$W/repo" "$W/out"
+(cd /repo && git ls-files -z | xargs -0 cp --parents -t "$W/repo") || exit 2
+(cd "$W/repo" && git init -q . && git apply "$S/patch.diff") || { echo "patch does not apply"; exit 2; }
 cd /verif
-timeout 3000 harness/check $P --tier $T > /tmp/seedtest_$1_$P.log 2>&1
+LOG=/tmp/seedtest_$1_$P.log
+NMFU_REPO="$W/repo" VERIF_OUT="$W/out" timeout 6000 harness/check $P --tier $T > $LOG 2>&1
 rc=$?
-git -C /repo checkout -- .
-echo "seed=$1 check=$P rc=$rc"
-grep -c "^VIOLATION" /tmp/seedtest_$1_$P.log
-grep -A1 "^VIOLATION" /tmp/seedtest_$1_$P.log | head -6 | cut -c1-400
-grep "MACHINERY" /tmp/seedtest_$1_$P.log | head -3 | cut -c1-300
+echo "seed=$1 check=$P tier=$T rc=$rc violations=$(grep -c '^VIOLATION' $LOG)"
+grep -A1 "^VIOLATION" $LOG | head -4 | cut -c1-400
+grep "MACHINERY" $LOG | head -3 | cut -c1-300
 exit 0
